@@ -171,10 +171,10 @@ func (kgdb *KVInterfaceGDB) DelEdge(eid string) error {
 		return fmt.Errorf("Edge Not Found")
 	}
 
-	_, _, sid, did, _, _ := EdgeKeyParse(ekey)
+	_, _, sid, did, label, etype := EdgeKeyParse(ekey)
 
-	skey := SrcEdgeKeyPrefix(kgdb.graph, sid, did, eid)
-	dkey := DstEdgeKeyPrefix(kgdb.graph, sid, did, eid)
+	skey := SrcEdgeKey(kgdb.graph, sid, did, eid, label, etype)
+	dkey := DstEdgeKey(kgdb.graph, sid, did, eid, label, etype)
 
 	if err := kgdb.kvg.kv.Delete(ekey); err != nil {
 		return err
